@@ -29,6 +29,7 @@ from .runner import Outcome, import_fresh_bisturi
 from . import project, decls
 
 RAWS_SEEN = {}          # per run (cleared in execute): root class -> raw inputs generated so far
+VALUES_SEEN = {}        # per run: ints / byte strings handed out so far (re-used now and then: equal values)
 WATCHDOG_S = 20.0
 MAX_EVENTS_PER_RUN = 400000
 DUEL_MAX_POINTS = 160
@@ -76,7 +77,13 @@ class Env:
             return tuple(out)
         if isinstance(v, list):
             return ("list",) + tuple(self.snap(x) for x in v)
-        if isinstance(v, (bytes, int, str, type(None), bool)):
+        if isinstance(v, tuple):
+            return ("tuple",) + tuple(self.snap(x) for x in v)
+        if isinstance(v, dict):
+            return ("dict",) + tuple(sorted(((repr(k), self.snap(x)) for k, x in v.items())))
+        if isinstance(v, (bytearray, set, frozenset)):
+            return (type(v).__name__, repr(sorted(v) if not isinstance(v, bytearray) else bytes(v)))
+        if isinstance(v, (bytes, int, str, type(None), bool, float)):
             return v
         return "<%s>" % type(v).__name__
 
@@ -92,12 +99,21 @@ class Env:
                 except Exception:
                     continue
                 self.walk_mutables(v, acc, rootid, path + (n,))
-        elif isinstance(root, list):
+        elif isinstance(root, (list, tuple)):
+            if isinstance(root, list) or root:          # the empty tuple is a singleton, and immutable
+                acc.setdefault(id(root), []).append((rootid, path))
+                if len(acc[id(root)]) > 1 and isinstance(root, list):
+                    return
+            for i, x in enumerate(root):
+                self.walk_mutables(x, acc, rootid, path + (i,))
+        elif isinstance(root, dict):
             acc.setdefault(id(root), []).append((rootid, path))
             if len(acc[id(root)]) > 1:
                 return
-            for i, x in enumerate(root):
-                self.walk_mutables(x, acc, rootid, path + (i,))
+            for k, x in root.items():
+                self.walk_mutables(x, acc, rootid, path + (("k", k),))
+        elif isinstance(root, (bytearray, set)):
+            acc.setdefault(id(root), []).append((rootid, path))
 
     def locations(self, pkt, path=(), depth=0, out=None):
         """mutable locations of a packet: (path, kind, current value)"""
@@ -122,6 +138,16 @@ class Env:
                         self.locations(x, p + (i,), depth + 1, out)
                     elif isinstance(x, (int, bytes)) and not isinstance(x, bool):
                         out.append((p + (i,), "int" if isinstance(x, int) else "bytes", x))
+            elif isinstance(v, dict):
+                out.append((p, "dict", v))
+                for k2, x in sorted(v.items(), key=repr)[:3]:
+                    if isinstance(x, (int, bytes)) and not isinstance(x, bool):
+                        out.append((p + (("k", k2),), "int" if isinstance(x, int) else "bytes", x))
+            elif isinstance(v, tuple):
+                for i, x in enumerate(v[:4]):
+                    if isinstance(x, self.Packet):
+                        out.append((p + (i,), "pkt-in-tuple", x))
+                        self.locations(x, p + (i,), depth + 1, out)
             elif isinstance(v, bool):
                 pass
             elif isinstance(v, int):
@@ -133,13 +159,15 @@ class Env:
     def resolve(self, pkt, path):
         obj = pkt
         for step in path:
-            obj = obj[step] if isinstance(step, int) else getattr(obj, step)
+            obj = obj[step] if isinstance(step, int) else obj[step[1]] if isinstance(step, tuple) else getattr(obj, step)
         return obj
 
     def assign(self, pkt, path, value):
         parent = self.resolve(pkt, path[:-1])
         if isinstance(path[-1], int):
             parent[path[-1]] = value
+        elif isinstance(path[-1], tuple):
+            parent[path[-1][1]] = value
         else:
             setattr(parent, path[-1], value)
 
@@ -149,6 +177,10 @@ class Env:
             return self.REG[spec[1]](**{k: self.build(v) for k, v in spec[2]})
         if isinstance(spec, tuple) and spec and spec[0] == "newlist":
             return [self.build(x) for x in spec[1]]
+        if isinstance(spec, tuple) and spec and spec[0] == "newtuple":
+            return tuple(self.build(x) for x in spec[1])
+        if isinstance(spec, tuple) and spec and spec[0] == "newdict":
+            return {k: self.build(x) for k, x in spec[1]}
         return spec
 
 
@@ -181,13 +213,31 @@ def value_spec_like(v, env, ch, u, depth=0):
                 return None
             items.append(s)
         return ("newlist", tuple(items))
+    if isinstance(v, tuple):
+        items = [value_spec_like(x, env, ch, u, depth + 1) for x in v]
+        return None if any(i is None for i in items) else ("newtuple", tuple(items))
+    if isinstance(v, dict):
+        items = []
+        for i in range(ch.draw("dict-len", 3)):
+            items.append((u.int(20), u.bytes(ch.draw("bytes-len", 4))))
+        return ("newdict", tuple(items))
     if isinstance(v, bool):
         return None
     if isinstance(v, int):
-        return u.int()
+        bag = VALUES_SEEN.setdefault("int", [])
+        if bag and ch.chance("equal-value-again", 1, 5):
+            return bag[ch.draw("which-earlier-value", len(bag))]       # an equal value in another packet must stay harmless
+        x = u.int()
+        bag.append(x)
+        return x
     if isinstance(v, bytes):
+        bag = VALUES_SEEN.setdefault("bytes", [])
+        if bag and ch.chance("equal-value-again", 1, 5):
+            return bag[ch.draw("which-earlier-value", len(bag))]
         n = len(v) if (v and ch.chance("same-length", 3, 4)) else ch.draw("bytes-len", 5)
-        return u.bytes(n)
+        x = u.bytes(n)
+        bag.append(x)
+        return x
     return None
 
 
@@ -219,6 +269,9 @@ def perform(env, slot, op):
         if kind == "APPEND":
             env.resolve(pkt, op[1]).append(env.build(op[2]))
             return ("appended",)
+        if kind == "DICTADD":
+            env.resolve(pkt, op[1])[op[2]] = env.build(op[3])
+            return ("dict-added",)
         if kind == "POP":
             lst = env.resolve(pkt, op[1])
             if lst:
@@ -234,6 +287,22 @@ def perform(env, slot, op):
             return ("packed2", a, b, before == after, before if before != after else None, after if before != after else None)
         if kind == "READ":
             return ("read", env.snap(pkt))
+        if kind == "CONSIST":
+            before = env.snap(pkt)
+            ok = pkt.assert_consistency(dont_raise=True)
+            return ("consistent", ok, before == env.snap(pkt))
+        if kind == "REGEXP":
+            before = env.snap(pkt)
+            try:
+                pat = pkt.as_regular_expression().pattern
+            except Exception as e:
+                pat = "raised %s" % type(e).__name__
+            return ("regexp", pat, before == env.snap(pkt))
+        if kind == "EQ":
+            try:
+                return ("eq", pkt == pkt, repr(pkt) == repr(pkt))
+            except Exception as e:
+                return ("eq-raised", type(e).__name__)
     except PacketError as e:
         return ("PacketError", "unpack" if e.was_error_found_in_unpacking_phase else "pack")
     except Exception as e:
@@ -249,7 +318,7 @@ def gen_op(env, rec, ch, u, force=None):
     elif rec["pkt"] is None:
         k = ch.weighted("create-op", [1, 1])
     else:
-        k = 2 + ch.weighted("op", [4, 2, 4, 2, 2, 1, 1])     # SET APPEND/POP PACK PACK2 READ re-PARSE re-NEW
+        k = 2 + ch.weighted("op", [8, 4, 8, 4, 4, 2, 2, 2, 1, 1])     # SET APPEND/POP PACK PACK2 READ re-PARSE re-NEW CONSIST REGEXP EQ
     if k == 0 or k == 8:
         kws = []
         if ch.chance("kwargs?", 2, 3):
@@ -288,6 +357,10 @@ def gen_op(env, rec, ch, u, force=None):
         if s is not None:
             return ("SET", path, s)
     if k == 3:
+        dicts = [l for l in locs if l[1] == "dict"]
+        if dicts and ch.chance("dict-add?", 1, 2):
+            path, _, cur = dicts[ch.draw("dict-location", len(dicts))]
+            return ("DICTADD", path, u.int(20), u.bytes(ch.draw("bytes-len", 4)))
         lists = [l for l in locs if l[1] == "list"]
         if lists:
             path, _, cur = lists[ch.draw("list-location", len(lists))]
@@ -300,6 +373,12 @@ def gen_op(env, rec, ch, u, force=None):
         return ("PACK2",)
     if k == 6:
         return ("READ",)
+    if k == 9:
+        return ("CONSIST",)
+    if k == 10:
+        return ("REGEXP",)
+    if k == 11:
+        return ("EQ",)
     return ("PACK",)
 
 
@@ -400,6 +479,9 @@ class World:
 
     def check_after(self, rec, opi, op, obs):
         if self.violation is not None:
+            return
+        if obs[0] in ("consistent", "regexp") and obs[2] is False:
+            self.violation = ("C13.P-pack-mutates", rec["root"], "%s: %s changed the packet's fields" % (rec["label"], op[0]))
             return
         if obs[0] == "packed2":
             if obs[1] != obs[2]:
@@ -563,6 +645,7 @@ class ThreadEngine(Engine):
         st = out.stats
         pdir = project.fresh_dir(os.path.join(self.wdir, "p13"))
         RAWS_SEEN.clear()
+        VALUES_SEEN.clear()
         names, opt = self._world_draws(ch, st)
         source = decls.source_for(names, opt)
         modname = "c13_run"
@@ -756,7 +839,7 @@ class ThreadEngine(Engine):
 def _abstract(op):
     if op[0] == "PARSE":
         return ("PARSE", len(op[2]))
-    if op[0] in ("SET", "APPEND", "POP"):
+    if op[0] in ("SET", "APPEND", "POP", "DICTADD"):
         return (op[0], op[1])
     if op[0] == "NEW":
         return ("NEW", tuple(k for k, _ in op[2]))
